@@ -8,6 +8,7 @@ mod small;
 mod probe;
 mod sys;
 mod mtree;
+mod slots;
 
 use std::collections::HashMap;
 
@@ -66,6 +67,7 @@ fn main() {
         "pdb-record" => record::cmd_record(&args),
         "pdb-record-mt" => record::cmd_record_mt(&args),
         "btree-replay" => small::cmd_btree_replay(&args),
+        "slots-replay" => slots::cmd_slots_replay(&args),
         other => {
             eprintln!("unknown command {other}");
             2
